@@ -336,7 +336,11 @@ fn check_numbers(db: &Db, spellings: &[String], d: Dialect, format: bool) -> Vec
                 }
             }
             Ok(sql) => match db.query(&sql) {
-                Err(e) => bad.push(Bad { key: format!("statement-broken-by-number:{}", dname(d)), why: format!("[{} format={format}] {s} → {sql:?}: {e}", dname(d)), value: s.clone(), spelling: s.clone() }),
+                Err(e) => {
+                    // cause predicate of the recorded finding: the spelling exceeds the f64 range
+                    let key = if matches!(want, Some(Err(f)) if f.is_infinite()) && sql.contains("inf") { "out-of-range-float-emitted-as-inf".to_string() } else { format!("statement-broken-by-number:{}", dname(d)) };
+                    bad.push(Bad { key, why: format!("[{} format={format}] {s} → {sql:?}: {e}", dname(d)), value: s.clone(), spelling: s.clone() })
+                }
                 Ok((_, rows)) => {
                     let got = rows.first().and_then(|r| r.first()).cloned().unwrap_or(crate::model::V::Null);
                     let ok = match (&want, &got) {
